@@ -53,30 +53,33 @@ Nlv(s) == IF Valuable(s) THEN NlvOf(s) ELSE NaN
 -----------------------------------------------------------------------------
 Quote(c, b, s) ==
     /\ "quote" \in Ops
-    /\ st' = QuoteF(st, c, RM(b), RM(b + s))
+    /\ \E n1 \in {QuoteF(st, c, RM(b), RM(b + s))} :
+          /\ st' = n1
+          /\ Log([op |-> "quote", c |-> c, x |-> RM(b), y |-> RM(b + s), out |-> "ok", nlv |-> Nlv(n1)])
     /\ UNCHANGED <<h, track, clk>>
-    /\ Log([op |-> "quote", c |-> c, x |-> RM(b), y |-> RM(b + s), out |-> "ok", nlv |-> Nlv(st')])
 
 \* a quote with one or both sides missing (EventNBBO with NaN prices)
 Half(c, b, side) ==
     /\ "half" \in Ops
     /\ LET nb == IF side \in {"bid", "both"} THEN NaN ELSE RM(b)
            na == IF side \in {"ask", "both"} THEN NaN ELSE RM(b)
-       IN  /\ st' = QuoteF(st, c, nb, na)
-           /\ Log([op |-> "quote", c |-> c, x |-> nb, y |-> na, out |-> "ok", nlv |-> Nlv(st')])
+       IN  \E n1 \in {QuoteF(st, c, nb, na)} :
+           /\ st' = n1
+           /\ Log([op |-> "quote", c |-> c, x |-> nb, y |-> na, out |-> "ok", nlv |-> Nlv(n1)])
     /\ UNCHANGED <<h, track, clk>>
 
 Discontinue(c) ==
     /\ "disc" \in Ops
     /\ st.alive[c]
-    /\ st' = DiscontinueF(st, c)
+    /\ \E n1 \in {DiscontinueF(st, c)} :
+          /\ st' = n1
+          /\ Log([op |-> "disc", c |-> c, x |-> "-", y |-> "-", out |-> "ok", nlv |-> Nlv(n1)])
     /\ UNCHANGED <<h, track, clk>>
-    /\ Log([op |-> "disc", c |-> c, x |-> "-", y |-> "-", out |-> "ok", nlv |-> Nlv(st')])
 
 Trade(c, dq) ==
     /\ "trade" \in Ops
-    /\ LET r == TransactF(st, c, RM(dq))
-       IN  /\ st' = r.st
+    /\ \E r \in {TransactF(st, c, RM(dq))} :     \* bound once (TLC re-evaluates LET definitions per reference in actions)
+           /\ st' = r.st
            /\ h' = IF r.out = "ok"
                    THEN [h EXCEPT !.paid[c] = Add(@, Mul(RM(dq), r.exec)), !.fees = Add(@, r.comm)]
                    ELSE h
@@ -85,28 +88,29 @@ Trade(c, dq) ==
 
 Mark(c) ==
     /\ "mark" \in Ops
-    /\ st' = MarkF(st, c)
+    /\ \E n1 \in {MarkF(st, c)} :
+          /\ st' = n1
+          /\ Log([op |-> "mark", c |-> c, x |-> "-", y |-> "-", out |-> "ok", nlv |-> Nlv(n1)])
     /\ UNCHANGED <<h, track, clk>>
-    /\ Log([op |-> "mark", c |-> c, x |-> "-", y |-> "-", out |-> "ok", nlv |-> Nlv(st')])
 
 MarkAll ==
     /\ "markall" \in Ops
-    /\ st' = MarkAllF(st)
+    /\ \E n1 \in {MarkAllF(st)} :
+          /\ st' = n1
+          /\ Log([op |-> "markall", c |-> "-", x |-> "-", y |-> "-", out |-> "ok", nlv |-> Nlv(n1)])
     /\ UNCHANGED <<h, track, clk>>
-    /\ Log([op |-> "markall", c |-> "-", x |-> "-", y |-> "-", out |-> "ok", nlv |-> Nlv(st')])
 
 Value(raise) ==
     /\ "value" \in Ops
-    /\ LET r == ValueF(st, raise)
-       IN  /\ st' = r.st
+    /\ \E r \in {ValueF(st, raise)} :
+           /\ st' = r.st
            /\ Log([op |-> "value", c |-> "-", x |-> raise, y |-> "-", out |-> r.out, nlv |-> r.nlv])
     /\ UNCHANGED <<h, track, clk>>
 
 \* the rebalancing path: trades are built by the library from the exchange's current quotes
 DoRebalance(req, dt, tag) ==
-    LET t == clk + dt
-        r == RebalanceF(st, req, t)
-        execp(c) == AcqPrice(st, c, Sign(r.trades[c]))
+    \E t \in {clk + dt} : \E r \in {RebalanceF(st, req, t)} :
+    LET execp(c) == AcqPrice(st, c, Sign(r.trades[c]))
         done == r.trades # <<>> /\ r.out \in {"ok", "broke"}     \* trades were executed
     IN  /\ track < MaxRebal
         /\ t <= MaxClk
@@ -132,9 +136,8 @@ Rebal(req, dt) ==
 Accrue(dt, accrue) ==
     /\ (IF accrue THEN "accrue" ELSE "query") \in Ops
     /\ clk + dt <= MaxClk
-    /\ LET t == clk + dt
-           r == AccrueF(st, t, accrue)
-       IN  /\ st' = r.st
+    /\ \E t \in {clk + dt} : \E r \in {AccrueF(st, t, accrue)} :
+           /\ st' = r.st
            /\ clk' = t
            /\ h' = IF accrue THEN [h EXCEPT !.interest = Add(@, r.amount)] ELSE h
            /\ Log([op |-> IF accrue THEN "accrue" ELSE "query", c |-> "-", x |-> t, y |-> r.amount,
